@@ -610,6 +610,7 @@ def gen_lpm_shared(rng, mode):
     middle / deleted at every position, in committed, aborted and still-pending transactions; every snapshot
     taken on the way is re-queried through that index after every later step."""
     g = DBGen(rng, mode)
+    g.watch_budget = 300
     g.add(op="config", nilempty=False)
     t = g.newtable()
     P = rng.choice([[1, 0], [1, 0, 1, 1, 0, 0, 1, 0], [], [0, 1, 1]])
@@ -623,12 +624,12 @@ def gen_lpm_shared(rng, mode):
 
     snaps = []
 
-    def observe(src, ctx=""):
-        g.q(src, t, "pfx", "list", full, ctx=ctx)
-        g.q(src, t, "pfx", "get", full, ctx=ctx)
-        g.q(src, t, "pfx", "prefix", [], ctx=ctx)
-        g.q(src, t, "pfx", "lowerbound", [], ctx=ctx)
-        g.q(src, t, "pfx", "list", P, ctx=ctx)
+    def observe(src, ctx="", watch=False):
+        g.q(src, t, "pfx", "list", full, ctx=ctx, watch=watch)
+        g.q(src, t, "pfx", "get", full, ctx=ctx, watch=watch)
+        g.q(src, t, "pfx", "prefix", [], ctx=ctx, watch=watch)
+        g.q(src, t, "pfx", "lowerbound", [], ctx=ctx, watch=watch)
+        g.q(src, t, "pfx", "list", P, ctx=ctx, watch=watch)
         g.q(src, t, "id", "all", [], ctx=ctx)
 
     def requery():
@@ -666,7 +667,11 @@ def gen_lpm_shared(rng, mode):
             live = None        # unknown after an abort: rebuilt below
         else:
             s2 = g.commit(tx)
-            observe(g.snap_src(s2))
+            if mode == "c06":
+                # watches taken through the shared-prefix index from the previous snapshot must have closed if
+                # this commit changed what they returned; fresh ones are taken from the new snapshot
+                g.chans(ctx="postcommit")
+            observe(g.snap_src(s2), watch=(mode == "c06"))
         snaps.append(s2)
         if live is None:
             live = []          # shaping only: keep inserting
@@ -856,7 +861,7 @@ MODES = {
     "c06dense": gen_c06_dense,
     "gcwindow": gen_gcwindow,
     "c06inner": gen_c06_inner,
-    "lpmshared": gen_lpm_shared,
+    "lpmshared": gen_lpm_shared, "c06lpm": lambda rng, mode: gen_lpm_shared(rng, "c06"),
     "c18": gen_c18,
     "kf_l": gen_kf_rejected_only, "kf_n": gen_kf_zero_guard,
     "c01": gen_general, "c02": gen_general, "c03": gen_general, "c04": gen_general, "c06": gen_general,
